@@ -1,4 +1,5 @@
 import Hls.Props.C15
+import Hls.Props.C15Text
 #print axioms Hls.C15.tables_match
 #print axioms Hls.C15.masterStep_err_iff
 #print axioms Hls.C15.mediaStep_foreign
@@ -13,3 +14,11 @@ import Hls.Props.C15
 #print axioms Hls.C15.never_both
 #print axioms Hls.C15.streaminf_pairs
 #print axioms Hls.C15.streaminf_trailing
+#print axioms Hls.C15T.items_cover
+#print axioms Hls.C15T.startsWith_split
+#print axioms Hls.C15T.kind_of_map
+#print axioms Hls.C15T.media_prefix_kind
+#print axioms Hls.C15T.media_flag_kind
+#print axioms Hls.C15T.master_rejects_text
+#print axioms Hls.C15T.master_prefix_kind
+#print axioms Hls.C15T.media_rejects_text
